@@ -56,7 +56,9 @@ def gen_theory(d, real=False, order=None):
         xif=1.0,
         n3lo_ad_variation=[0, 0, 0, 0, 0, 0, 0],
         use_fhmruvv=True,
-        matching_order=[order - 1, 0],
+        # real physics: NLO matching integrals cost ~10x an evolution part when
+        # interpreted; an LO matching order with NLO evolution is a legal card
+        matching_order=[0, 0] if (real and d.chance("th:lomatch", 0.8)) else [order - 1, 0],
     )
 
 
